@@ -63,15 +63,18 @@ struct RandSystem {
     State state;
     RandSystem() : matter(sys), forces(sys), euler(false) {}
     // nb bodies (besides Ground); shape: 0 chain, 1 star, 2 random branching
-    void build(Rng& r, int nb, int shape, int onlyType = -1) {
-        euler = r.I(0, 1) == 1;
+    // reloc (optional): rigid transform applied to every Ground-attached inboard frame (relocates the whole model)
+    void build(Rng& r, int nb, int shape, int onlyType = -1, const Transform* reloc = 0, int forceEuler = -1) {
+        euler = r.I(0, 1) == 1; if (forceEuler >= 0) euler = forceEuler == 1;
         for (int i = 0; i < nb; ++i) {
             int p = (shape == 0) ? i : (shape == 1 ? (i == 0 ? 0 : 1) : r.I(0, i));   // parent MobilizedBodyIndex (0 = Ground)
             if (shape == 1 && i == 0) p = 0;
             MobilizedBody& parent = matter.updMobilizedBody(MobilizedBodyIndex(p));
             int ty = onlyType >= 0 ? onlyType : r.I(0, NMOBTYPES - 1); bool rev = r.I(0, 3) == 0;
             Body::Rigid body(randomMassProps(r));
-            addMobod(ty, parent, r.xf(), body, r.xf(), rev);
+            Transform xpf = r.xf(); Transform xbm = r.xf();
+            if (reloc && p == 0) xpf = (*reloc) * xpf;
+            addMobod(ty, parent, xpf, body, xbm, rev);
             types.push_back(ty); revs.push_back(rev);
         }
         state = sys.realizeTopology();
